@@ -21,7 +21,7 @@ RULE_CODES = {
     "rule_var_decl_global_const_requires_external_const": {"VariableMustBeConst"},
     "xform_resolve_late_bound_data_decl": {"DeclarationNameDuplicated"},
     "xform_resolve_late_bound_type_initializer": {"DefinitionNameDuplicated", "UndeclaredUnknownType"},
-    "xform_toposort_declarations": {"RecursiveCycle"},
+    "xform_toposort_declarations": {"RecursiveCycle", "DeclarationNameDuplicated"},   # P0019 since the duplicate-name repair
     "stages": {"NoContent"},
 }
 
